@@ -216,19 +216,58 @@ def bexpr(e0, left="matching_score", right="matching_threshold", pre="self."):
             return out
         if isinstance(e, ast.Attribute) and src(e) in (pre + "increasing", pre + "decreasing"):
             return ".increasing" if e.attr == "increasing" else ".decreasing"
+        if isinstance(e, ast.IfExp):
+            return f"(.ite {conv(e.test)} {conv(e.body)} {conv(e.orelse)})"
         if isinstance(e, ast.Compare) and len(e.ops) == 1 and src(e.left) == left and src(e.comparators[0]) == right:
             o = {ast.GtE: ".ge", ast.LtE: ".le", ast.Gt: ".gt", ast.Lt: ".lt", ast.Eq: ".eq"}.get(type(e.ops[0]))
+            if o:
+                return f"(.cmp {o})"
+        if isinstance(e, ast.Compare) and len(e.ops) == 1 and src(e.left) == right and src(e.comparators[0]) == left:
+            o = {ast.GtE: ".le", ast.LtE: ".ge", ast.Gt: ".lt", ast.Lt: ".gt", ast.Eq: ".eq"}.get(type(e.ops[0]))      # operands exchanged
             if o:
                 return f"(.cmp {o})"
         return f"(.other {lean_str(src(e))})"
     return conv(e0)
 
 
+class _Subst(ast.NodeTransformer):
+    def __init__(self, env):
+        self.env = env
+
+    def visit_Name(self, n):
+        return self.env.get(n.id, n) if isinstance(n.ctx, ast.Load) else n
+
+
+def body_expr(stmts, env=None):
+    """the value a straight-line function body returns, as ONE expression: locals that are assigned once are substituted,
+    `if c: return a` followed by the rest becomes `a if c else <rest>`; None when the body is outside this subset"""
+    import copy
+    env = dict(env or {})
+    stmts = [s_ for s_ in stmts if not (isinstance(s_, ast.Expr) and isinstance(s_.value, ast.Constant))]
+    for k, st in enumerate(stmts):
+        if isinstance(st, ast.Assign) and len(st.targets) == 1 and isinstance(st.targets[0], ast.Name):
+            env[st.targets[0].id] = _Subst(env).visit(copy.deepcopy(st.value))
+        elif isinstance(st, ast.Return) and st.value is not None:
+            return _Subst(env).visit(copy.deepcopy(st.value))
+        elif isinstance(st, ast.If):
+            t = _Subst(env).visit(copy.deepcopy(st.test))
+            a_ = body_expr(st.body, env)
+            b_ = body_expr(st.orelse, env) if st.orelse else body_expr(stmts[k + 1:], env)
+            if a_ is None or b_ is None:
+                return None
+            return ast.IfExp(test=t, body=a_, orelse=b_)
+        else:
+            return None
+    return None
+
+
 def beats_tree(fn):
-    r = first(returns(fn))
-    if r is None:
+    if fn is None:
         return ".other \"MISSING\""
-    return bexpr(r.value)
+    e = body_expr(fn.body)
+    if e is None:
+        return f"(.other {lean_str('body outside the subset: ' + src(fn)[:80])})"
+    return bexpr(e)
 
 
 NEUTRAL = {"pred_labels_ = labelmap.get_pred_labels_matched_to_ref(ref_label)",
@@ -279,6 +318,12 @@ def lprog(stmts):
         return f"(.act .setMatch {lprog(rest)})"
     if t in NEUTRAL:
         return lprog(rest)
+    m1 = re.fullmatch(r"(\w+) = labelmap\.get_pred_labels_matched_to_ref\((ref_label=)?ref_label\)", t)
+    if m1 and rest:
+        # the list of already assigned predictions under any local name, handed on unchanged to new_combination_score
+        t2 = src(rest[0])
+        if re.fullmatch(rf"new_score = self\.new_combination_score\({m1.group(1)}, pred_label, ref_label, unmatched_instance_pair\)", t2):
+            return lprog(rest[1:])
     return f"(.other {lean_str(t[:120])})"
 
 
@@ -293,27 +338,74 @@ def loop_body(cls):
     return lprog(loop.body)
 
 
+def chain_cond(e):
+    """conditions of the scenario chain over tp, num_pred_instances, num_ref_instances"""
+    t = src(e)
+    if isinstance(e, ast.UnaryOp) and isinstance(e.op, ast.Not):
+        return f"(.not {chain_cond(e.operand)})"
+    if isinstance(e, ast.BoolOp):
+        op = ".or" if isinstance(e.op, ast.Or) else ".and"
+        out = chain_cond(e.values[0])
+        for v in e.values[1:]:
+            out = f"({op} {out} {chain_cond(v)})"
+        return out
+    if isinstance(e, ast.Compare) and len(e.ops) == 1:
+        l, r, op = src(e.left), src(e.comparators[0]), type(e.ops[0])
+        if l in ("0", "1") and r not in ("0", "1"):
+            l, r = r, l
+            op = {ast.Gt: ast.Lt, ast.Lt: ast.Gt, ast.GtE: ast.LtE, ast.LtE: ast.GtE}.get(op, op)
+        zero = {"tp": ".tpNonzero", "num_pred_instances": ".predZero", "num_ref_instances": ".refZero",
+                "num_pred_instances + num_ref_instances": ".sumZero", "num_ref_instances + num_pred_instances": ".sumZero"}.get(l)
+        if zero is not None:
+            is_zero = (r == "0" and op in (ast.Eq, ast.LtE)) or (r == "1" and op is ast.Lt)
+            non_zero = (r == "0" and op in (ast.NotEq, ast.Gt)) or (r == "1" and op is ast.GtE)
+            if zero == ".tpNonzero":
+                if non_zero:
+                    return ".tpNonzero"
+                if is_zero:
+                    return "(.not .tpNonzero)"
+            elif is_zero:
+                return zero
+            elif non_zero:
+                return f"(.not {zero})"
+    return f"(.other {lean_str(t)})"
+
+
 def chain_embedding():
     E = Mod("panoptica/utils/edge_case_handling.py")
     f = E.func("__call__", "MetricZeroTPEdgeCaseHandling")
     items = []
-    if f:
-        top = first(n for n in f.body if isinstance(n, ast.If))
-        while top is not None:
-            t = src(top.test)
-            cond = {"tp != 0": ".tpNonzero", "num_pred_instances + num_ref_instances == 0": ".sumZero", "num_ref_instances == 0": ".refZero",
-                    "num_pred_instances == 0": ".predZero", "num_pred_instances > 0 and num_ref_instances > 0": ".bothPos"}.get(t, f"(.other {lean_str(t)})")
-            r = first(returns(ast.Module(body=top.body, type_ignores=[])))
-            rs = src(r.value) if r is not None else "?"
-            m = re.match(r"\(True, self\._edgecase_dict\[EdgeCaseZeroTP\.(\w+)\]\.value\)$", rs)
-            if m:
-                res = f"(.scenario {lean_str(m.group(1))})"
-            elif rs == "(False, EdgeCaseResult.NONE.value)":
-                res = ".noEdge"
+
+    def result(stmts):
+        r = first(returns(ast.Module(body=stmts, type_ignores=[])))
+        rs = src(r.value) if r is not None else "?"
+        m = re.match(r"\(True, self\._edgecase_dict\[EdgeCaseZeroTP\.(\w+)\]\.value\)$", rs)
+        if m:
+            return f"(.scenario {lean_str(m.group(1))})"
+        if rs == "(False, EdgeCaseResult.NONE.value)":
+            return ".noEdge"
+        return f"(.other {lean_str(rs)})"
+
+    def walk(stmts):
+        stmts = [s_ for s_ in stmts if not (isinstance(s_, ast.Expr) and isinstance(s_.value, ast.Constant))]
+        for k, st in enumerate(stmts):
+            if isinstance(st, ast.If):
+                if any(isinstance(n, ast.Return) for n in st.body) and all(isinstance(n, (ast.Return, ast.Expr)) for n in st.body):
+                    items.append(f"({chain_cond(st.test)}, {result(st.body)})")
+                else:
+                    items.append(f"((.other {lean_str('if ' + src(st.test))}), (.other \"nested\"))")
+                if st.orelse:
+                    walk(st.orelse)          # elif / else
+                    return
+            elif isinstance(st, ast.Return):
+                items.append(f"(.tt, {result([st])})")
+                return
+            elif isinstance(st, (ast.Assign, ast.AnnAssign)) and not any(isinstance(n, ast.Call) for n in ast.walk(st)):
+                items.append(f"((.other {lean_str(src(st)[:60])}), (.other \"assignment\"))")
             else:
-                res = f"(.other {lean_str(rs)})"
-            items.append(f"({cond}, {res})")
-            top = top.orelse[0] if len(top.orelse) == 1 and isinstance(top.orelse[0], ast.If) else None
+                continue
+    if f:
+        walk(f.body)
     return "[" + ", ".join(items) + "]"
 
 
